@@ -434,6 +434,29 @@ def mechanism(v, prop, files, tag):
         log(f"model drift: {len(drift)} trace files are not behaviours of Bitcask.tla step by step (not an alarm): {drift[0]}")
 
 
+def short_append_runs(trace_file):
+    """A copy of a short-write trace file with only the runs in which the short write hit an append (put / del)."""
+    evs = read_ndjson(trace_file)
+    out, run, keep, op = [evs[0]], [], False, None
+    for e in evs[1:]:
+        if e.get("ev") == "reset":
+            if keep:
+                out += run
+            run, keep, op = [], False, None
+        if e.get("ev") == "inv":
+            op = e.get("op")
+        if e.get("ev") == "sys" and e.get("injected") and e.get("res", -1) >= 0:
+            keep = op in ("put", "del")
+        run.append(e)
+    if keep:
+        out += run
+    path = trace_file.replace(".ndjson", ".appends.ndjson")
+    with open(path, "w") as fh:
+        for e in out:
+            fh.write(json.dumps(e) + "\n")
+    return path
+
+
 def check(prop, tier):
     v = Verdict(prop, tier)
     tag = f"{prop}-{os.getpid()}"
@@ -448,8 +471,9 @@ def check(prop, tier):
         files, summary, gfile = drive(v, prop, tier, tag)
         lap("+ driver runs")
         # the files are rewritten by validate() only when a known finding is dropped from them
-        # (short writes are not steps of BitcaskFault.tla's one-call-fails-entirely model: property level only)
-        mech_files = [x for x in files if "-short." not in os.path.basename(x)]
+        # short writes: BitcaskFault.tla models them for appends (FailAppendShort); the runs whose short write fell into
+        # a merge are judged at property level only and are filtered out of the copies given to TraceMech
+        mech_files = [x for x in files if "-short." not in os.path.basename(x)] + [short_append_runs(x) for x in files if "generated-short." in os.path.basename(x)]
         if PROPS[prop]["mode"] == "fault" and tier == "quick":
             # the fault traces are large (every call of every behaviour failed twice): a seeded third of the shards
             mech_files = [f for n, f in enumerate(mech_files) if (n + seed()) % 3 == 0]
